@@ -10,9 +10,11 @@ From P2 Require Import Base.Prelude Sem.Num Sem.Syntax Sem.Ops Sem.Lib Sem.OpsSp
 Local Open Scope N_scope.
 
 (* what the implementation answered *)
-Inductive obs := OT | OF | OE | OV (v : value) | ON (n : N).
+Inductive obs := OT | OF | OE | OV (v : value) | ON (n : N) | OP (k : N) | OL (ks : list N).
 (* OT/OF: true/false, OE: an error (returned or recovered panic), OV: a value (min max order),
-   ON: number of the switch case taken (0 = default) *)
+   ON: number of the switch case taken (0 = default); to keep the case files small a returned value
+   that is (structurally) the k-th operand of the case is written OP k, and a returned list made of
+   operands OL [k1;k2;..] *)
 
 Inductive c14_case :=
 | CPair (id : N) (i j : N) (ab ba : list obs)            (* both directions of an unordered pair *)
@@ -27,8 +29,14 @@ Definition getv (pool : list value) (i : N) : value := nth (N.to_nat i) pool (VB
 
 Definition obs_bool (o : obs) : res bool :=
   match o with OT => Ok true | OF => Ok false | OE => Err None | _ => Unsup end.
-Definition obs_val (o : obs) : res value :=
-  match o with OV v => Ok v | OE => Err None | _ => Unsup end.
+Definition obs_val (ops : list value) (o : obs) : res value :=
+  match o with
+  | OV v => Ok v
+  | OP k => Ok (nth (N.to_nat k) ops (VBool false))
+  | OL ks => Ok (VList (map (fun k => nth (N.to_nat k) ops (VBool false)) ks))
+  | OE => Err None
+  | _ => Unsup
+  end.
 Definition obs_n (o : obs) : res N :=
   match o with ON n => Ok n | OE => Err None | _ => Unsup end.
 
@@ -44,10 +52,10 @@ Definition agree_bool (m : res value) (o : obs) : bool :=
   | _, _ => false
   end.
 
-Definition agree_val (m : res value) (o : obs) : bool :=
-  match m, o with
-  | Ok x, OV y => val_same x y
-  | (Err _ | Panic), OE => true
+Definition agree_val (ops : list value) (m : res value) (o : obs) : bool :=
+  match m, obs_val ops o with
+  | Ok x, Ok y => val_same x y
+  | (Err _ | Panic), Err _ => true
   | Unsup, _ => true
   | _, _ => false
   end.
@@ -87,7 +95,7 @@ Definition dir_im (a b : value) (o : list obs) : bool :=
       agree_bool (calc op_eq a b) o1 && agree_bool (calc op_ne a b) o2
       && agree_bool (calc op_lt a b) o3 && agree_bool (calc op_gt a b) o4
       && agree_bool (calc op_le a b) o5 && agree_bool (calc op_ge a b) o6
-      && agree_val (run_static n_min [a; b]) omin && agree_val (run_static n_max [a; b]) omax
+      && agree_val [a; b] (run_static n_min [a; b]) omin && agree_val [a; b] (run_static n_max [a; b]) omax
       && agree_n (switch_model a [b] 1) osw
       (* order: sort.Sort's sequence of comparisons is not modelled; it is judged by c14_is only *)
   | _ => false
@@ -98,8 +106,8 @@ Definition dir_im (a b : value) (o : list obs) : bool :=
 Definition triple_im (a b c : value) (o : list obs) : bool :=
   match o with
   | [omin; omax; olmin; olmax; _oord; osw; l1; l2; l3; e1; e2; e3] =>
-      agree_val (run_static n_min [a; b; c]) omin && agree_val (run_static n_max [a; b; c]) omax
-      && agree_val (pick_min a [b; c]) olmin && agree_val (pick_max a [b; c]) olmax
+      agree_val [a; b; c] (run_static n_min [a; b; c]) omin && agree_val [a; b; c] (run_static n_max [a; b; c]) omax
+      && agree_val [a; b; c] (pick_min a [b; c]) olmin && agree_val [a; b; c] (pick_max a [b; c]) olmax
       && agree_n (switch_model a [b; c] 1) osw
       && agree_bool (calc op_lt a b) l1 && agree_bool (calc op_lt b c) l2 && agree_bool (calc op_lt a c) l3
       && agree_bool (calc op_eq a b) e1 && agree_bool (calc op_eq b c) e2 && agree_bool (calc op_eq a c) e3
@@ -129,9 +137,9 @@ Definition dir_is (a b : value) (o : list obs) : bool :=
       eq_allowed a b (obs_bool o1) && ne_allowed a b (obs_bool o2)
       && lt_allowed a b (obs_bool o3) && gt_allowed a b (obs_bool o4)
       && le_allowed a b (obs_bool o5) && ge_allowed a b (obs_bool o6)
-      && demanded_val (min_spec a [b]) (obs_val omin) && demanded_val (max_spec a [b]) (obs_val omax)
+      && demanded_val (min_spec a [b]) (obs_val [a; b] omin) && demanded_val (max_spec a [b]) (obs_val [a; b] omax)
       && switch_allowed a [b] 1 (obs_n osw)
-      && order_allowed [a; b] (obs_val oord)
+      && order_allowed [a; b] (obs_val [a; b] oord)
   | _ => false
   end.
 
@@ -162,9 +170,9 @@ Definition triple_law (o : list obs) : N :=
 Definition triple_is (a b c : value) (o : list obs) : bool :=
   match o with
   | [omin; omax; olmin; olmax; oord; osw; l1; l2; l3; e1; e2; e3] =>
-      demanded_val (min_spec a [b; c]) (obs_val omin) && demanded_val (max_spec a [b; c]) (obs_val omax)
-      && demanded_val (min_spec a [b; c]) (obs_val olmin) && demanded_val (max_spec a [b; c]) (obs_val olmax)
-      && order_allowed [a; b; c] (obs_val oord)
+      demanded_val (min_spec a [b; c]) (obs_val [a; b; c] omin) && demanded_val (max_spec a [b; c]) (obs_val [a; b; c] omax)
+      && demanded_val (min_spec a [b; c]) (obs_val [a; b; c] olmin) && demanded_val (max_spec a [b; c]) (obs_val [a; b; c] olmax)
+      && order_allowed [a; b; c] (obs_val [a; b; c] oord)
       && switch_allowed a [b; c] 1 (obs_n osw)
       && lt_allowed a b (obs_bool l1) && lt_allowed b c (obs_bool l2) && lt_allowed a c (obs_bool l3)
       && eq_allowed a b (obs_bool e1) && eq_allowed b c (obs_bool e2) && eq_allowed a c (obs_bool e3)
@@ -190,9 +198,9 @@ Definition dir_is_first_bad (a b : value) (o : list obs) : N :=
       if negb (eq_allowed a b (obs_bool o1)) then 1 else if negb (ne_allowed a b (obs_bool o2)) then 2
       else if negb (lt_allowed a b (obs_bool o3)) then 3 else if negb (gt_allowed a b (obs_bool o4)) then 4
       else if negb (le_allowed a b (obs_bool o5)) then 5 else if negb (ge_allowed a b (obs_bool o6)) then 6
-      else if negb (demanded_val (min_spec a [b]) (obs_val omin)) then 8
-      else if negb (demanded_val (max_spec a [b]) (obs_val omax)) then 9
+      else if negb (demanded_val (min_spec a [b]) (obs_val [a; b] omin)) then 8
+      else if negb (demanded_val (max_spec a [b]) (obs_val [a; b] omax)) then 9
       else if negb (switch_allowed a [b] 1 (obs_n osw)) then 10
-      else if negb (order_allowed [a; b] (obs_val oord)) then 11 else 0
+      else if negb (order_allowed [a; b] (obs_val [a; b] oord)) then 11 else 0
   | _ => 99
   end.
